@@ -49,6 +49,7 @@ class T:
         self.budget_ms = budget_ms
         self.results = []
         self.covers = 0
+        self.solver_name = None
 
     def full(self, label):
         return f'{self.prop}/{self.task.name}/{label}'
@@ -272,8 +273,12 @@ def finish(prop, tier, seed, results, task_secs, t_start):
         vio_records.append(dict(obligation=fname, failed=len(rs), replay=path, confirmed=bool(confirmed)))
         r = rs[0]
         print(f'  failed obligation: {r["name"]} (+{len(rs) - 1} of the same family)  model={_short(r["model"])}  {r["note"][:200]}')
+    kf_seen = set()
     for r, k in known_hits:
-        print(f'KNOWN-FINDING: property={prop} {r["name"]} :: {k["what"]}')
+        if k['obligation'] not in kf_seen:
+            kf_seen.add(k['obligation'])
+            n_same = sum(1 for r2, k2 in known_hits if k2['obligation'] == k['obligation'])
+            print(f'KNOWN-FINDING: property={prop} {k["obligation"]} ({n_same} obligations) :: {k["what"]}')
     for ln in lines:
         print(ln)
 
